@@ -91,6 +91,7 @@ type v15Mon struct {
 	reports map[string]int
 	refused map[string]int
 	trace   []string
+	gate    *v15Gate
 }
 
 func (m *v15Mon) LogTraffic(id string, tx, rx uint64) bool {
@@ -117,7 +118,15 @@ func (m *v15Mon) LogTraffic(id string, tx, rx uint64) bool {
 	return got
 }
 
-func (m *v15Mon) LogOnlineState(id string, online bool) { m.inner.LogOnlineState(id, online) }
+func (m *v15Mon) LogOnlineState(id string, online bool) {
+	if online {
+		m.gate.enter(v15GOnline)
+	} else {
+		m.gate.enter(v15GOffline)
+	}
+	m.inner.LogOnlineState(id, online)
+	m.gate.leave()
+}
 func (m *v15Mon) TraceStream(s server.HyStream, st *server.StreamStats) {
 	m.inner.TraceStream(s, st)
 }
@@ -143,19 +152,24 @@ type v15Events struct {
 	connects    map[string]int
 	disconnects map[string]int
 	lastErr     map[string]string
+	gate        *v15Gate
 }
 
 func (e *v15Events) Connect(addr net.Addr, id string, tx uint64) {
+	e.gate.enter(v15GConnectEv)
 	e.mu.Lock()
 	e.connects[addr.String()]++
 	e.mu.Unlock()
+	e.gate.leave()
 }
 
 func (e *v15Events) Disconnect(addr net.Addr, id string, err error) {
+	e.gate.enter(v15GDisconnectEv)
 	e.mu.Lock()
 	e.disconnects[addr.String()]++
 	e.lastErr[addr.String()] = fmt.Sprint(err)
 	e.mu.Unlock()
+	e.gate.leave()
 }
 func (e *v15Events) TCPRequest(addr net.Addr, id, reqAddr string)                      {}
 func (e *v15Events) TCPError(addr net.Addr, id, reqAddr string, err error)             {}
@@ -336,8 +350,9 @@ func TestVerifC15_OnlineE2E(t *testing.T) {
 		endByShutdown := rapid.Bool().Draw(rt, "endByShutdown")
 
 		stats := NewTrafficStatsServer(secret)
-		mon := &v15Mon{inner: stats, model: v15NewModel(), reports: map[string]int{}, refused: map[string]int{}}
-		ev := &v15Events{connects: map[string]int{}, disconnects: map[string]int{}, lastErr: map[string]string{}}
+		gate := &v15Gate{}
+		mon := &v15Mon{inner: stats, model: v15NewModel(), reports: map[string]int{}, refused: map[string]int{}, gate: gate}
+		ev := &v15Events{connects: map[string]int{}, disconnects: map[string]int{}, lastErr: map[string]string{}, gate: gate}
 		sink := &v15Sink{}
 		pc, err := net.ListenUDP("udp", &net.UDPAddr{IP: net.IPv4(127, 0, 0, 1)})
 		if err != nil {
@@ -362,7 +377,9 @@ func TestVerifC15_OnlineE2E(t *testing.T) {
 		var idleRaw []*v15Client // raw connections that were never accepted: they must never count
 		maxRaw := rapid.IntRange(0, 2).Draw(rt, "rawClients")
 		ntReauth := false
+		ntSlow := false
 		defer func() {
+			gate.open()
 			for _, c := range everyClient {
 				_ = c.Close()
 			}
@@ -403,7 +420,7 @@ func TestVerifC15_OnlineE2E(t *testing.T) {
 			for c := range classes {
 				cl = append(cl, c)
 			}
-			st.Case(ntDisc || ntKick || ntReauth, strings.Join(opKinds, ","), cl, render)
+			st.Case(ntDisc || ntKick || ntReauth || ntSlow, strings.Join(opKinds, ","), cl, render)
 		}()
 		checkMonitor := func() {
 			if v, _, _ := mon.snapshot(); v != "" {
@@ -412,6 +429,9 @@ func TestVerifC15_OnlineE2E(t *testing.T) {
 		}
 		// census: called when every connection the harness touched has been reported by the server
 		census := func(when string) {
+			if !v15WaitUntil(v15LiveDeadline, gate.quiet) {
+				vInconclusive("C15 e2e: a released logger call did not return within the liveness deadline")
+			}
 			for _, c := range live {
 				if _, d, le := ev.counts(c.addr); d > c.baseDisc {
 					vInconclusive(fmt.Sprintf("C15 e2e: connection #%d of %q was disconnected without the harness asking for it (%s)", c.n, c.user, le))
@@ -565,7 +585,10 @@ func TestVerifC15_OnlineE2E(t *testing.T) {
 				}
 			}
 			if len(live) > 0 {
-				cands = append(cands, cand{"close", 4})
+				cands = append(cands, cand{"close", 4}, cand{"slowClose", 3})
+			}
+			if len(live) < 6 {
+				cands = append(cands, cand{"slowConnect", 3})
 			}
 			if len(stock) > 0 {
 				cands = append(cands, cand{"send", 7})
@@ -640,6 +663,177 @@ func TestVerifC15_OnlineE2E(t *testing.T) {
 				note("connect", "#%d connects as %q -> authenticated", cl.n, user)
 				if online[user] > 1 {
 					classes["multi-conn-user"] = true
+				}
+			case "slowConnect":
+				// the loggers are slow while a connection authenticates; the client may hang up as
+				// soon as its auth round trip returned
+				user := rapid.SampledFrom(ids).Draw(rt, "user")
+				useRaw := len(everyRaw) < maxRaw && rapid.Bool().Draw(rt, "raw")
+				slow := rapid.IntRange(1, 3).Draw(rt, "slow") // 1 online, 2 connect event, 3 both
+				closeNow := rapid.IntRange(0, 3).Draw(rt, "closeNow") != 0
+				var slowNames []string
+				if slow&1 != 0 {
+					gate.arm(v15GOnline)
+					slowNames = append(slowNames, v15GNames[v15GOnline])
+				}
+				if slow&2 != 0 {
+					gate.arm(v15GConnectEv)
+					slowNames = append(slowNames, v15GNames[v15GConnectEv])
+				}
+				nClients++
+				cl := &v15Client{n: nClients, user: user}
+				cf := &v15ConnFactory{}
+				var aerr error
+				var status int
+				authDone := make(chan struct{})
+				go func() {
+					defer close(authDone)
+					if useRaw {
+						cl.raw, aerr = v15RawDial(pc.LocalAddr())
+						if aerr == nil {
+							status, aerr = cl.raw.auth("ok:" + user)
+						}
+						return
+					}
+					cl.c, _, aerr = client.NewClient(&client.Config{
+						ConnFactory: cf,
+						ServerAddr:  pc.LocalAddr(),
+						Auth:        "ok:" + user,
+						TLSConfig:   client.TLSConfig{InsecureSkipVerify: true},
+					})
+				}()
+				// hold the parked call(s) until the auth round trip returns; if the answer waits for
+				// the logger (it does on a server that logs inside the request handler), give up the
+				// hold after v15Hold
+				gaveUp := 0
+				authEnd := time.Now().Add(v15LiveDeadline)
+			waitAuth:
+				for {
+					select {
+					case <-authDone:
+						break waitAuth
+					case <-time.After(2 * time.Millisecond):
+					}
+					if gate.parkedFor() >= v15Hold {
+						gate.releaseParked()
+						gaveUp++
+					}
+					if time.Now().After(authEnd) {
+						gate.open()
+						vInconclusive("C15 e2e: authentication with slow loggers did not return within the liveness deadline")
+					}
+				}
+				if cl.raw != nil {
+					everyRaw = append(everyRaw, cl.raw)
+					cl.addr = cl.raw.addr
+				}
+				if cl.c != nil {
+					everyClient = append(everyClient, cl.c)
+					cl.addr = cf.local
+				}
+				if aerr != nil || (useRaw && status != v15StatusAuthOK) {
+					gate.open()
+					vInconclusive(fmt.Sprintf("C15 e2e: authentication with slow loggers failed: status %d err %v", status, aerr))
+				}
+				stillParked := gate.parked()
+				if closeNow {
+					cl.hangUp()
+					if stillParked > 0 {
+						// the answer did not wait for the logger: let the server see the disconnect
+						// while the logger is still slow (bounded)
+						v15WaitUntil(v15Hold*5, func() bool { _, d, _ := ev.counts(cl.addr); return d > 0 || gate.parked() == 0 })
+						classes["hangup-while-online-log-parked"] = true
+					}
+				}
+				// settle: release whatever parks, until the server has reported everything
+				settled := v15WaitUntil(v15LiveDeadline, func() bool {
+					if gate.parked() > 0 {
+						gate.releaseParked()
+					}
+					cc, d, _ := ev.counts(cl.addr)
+					return cc > 0 && (!closeNow || d > 0) && gate.quiet()
+				})
+				gate.open()
+				if !settled {
+					vInconclusive("C15 e2e: the server did not report a connection made with slow loggers within the liveness deadline")
+				}
+				if closeNow {
+					note("slowConnect", "%s#%d authenticates as %q while %s is slow (hold given up %d times, %d still parked at the answer), hangs up at once", cl.kind(), cl.n, user, strings.Join(slowNames, "+"), gaveUp, stillParked)
+					classes["slow-connect-then-hangup"] = true
+					ntSlow = true
+				} else {
+					live = append(live, cl)
+					online[user]++
+					note("slowConnect", "%s#%d authenticates as %q while %s is slow (hold given up %d times), stays", cl.kind(), cl.n, user, strings.Join(slowNames, "+"), gaveUp)
+					classes["slow-connect-stays"] = true
+				}
+			case "slowClose":
+				// the loggers are slow while a connection ends; meanwhile another connection of the
+				// same user may arrive
+				c := live[rapid.IntRange(0, len(live)-1).Draw(rt, "which")]
+				slow := rapid.IntRange(1, 3).Draw(rt, "slow") // 1 offline, 2 disconnect event, 3 both
+				nested := len(live) < 6 && rapid.Bool().Draw(rt, "nested")
+				var slowNames []string
+				if slow&1 != 0 {
+					gate.arm(v15GOffline)
+					slowNames = append(slowNames, v15GNames[v15GOffline])
+				}
+				if slow&2 != 0 {
+					gate.arm(v15GDisconnectEv)
+					slowNames = append(slowNames, v15GNames[v15GDisconnectEv])
+				}
+				c.hangUp()
+				if !v15WaitUntil(v15LiveDeadline, func() bool { return gate.parked() > 0 }) {
+					gate.open()
+					vInconclusive("C15 e2e: the server did not notice a closed connection within the liveness deadline")
+				}
+				var nc *v15Client
+				if nested {
+					cf := &v15ConnFactory{}
+					var c2 client.Client
+					var cerr error
+					v15WithWatchdog("client.NewClient", func() {
+						c2, _, cerr = client.NewClient(&client.Config{
+							ConnFactory: cf,
+							ServerAddr:  pc.LocalAddr(),
+							Auth:        "ok:" + c.user,
+							TLSConfig:   client.TLSConfig{InsecureSkipVerify: true},
+						})
+					})
+					if cerr != nil {
+						gate.open()
+						vInconclusive("C15 e2e: client.NewClient failed: " + cerr.Error())
+					}
+					everyClient = append(everyClient, c2)
+					nClients++
+					nc = &v15Client{n: nClients, user: c.user, c: c2, addr: cf.local}
+					_, nc.baseDisc, _ = ev.counts(nc.addr)
+				}
+				settled := v15WaitUntil(v15LiveDeadline, func() bool {
+					if gate.parked() > 0 {
+						gate.releaseParked()
+					}
+					_, d, _ := ev.counts(c.addr)
+					ncOK := true
+					if nc != nil {
+						cc, _, _ := ev.counts(nc.addr)
+						ncOK = cc > 0
+					}
+					return d > c.baseDisc && ncOK && gate.quiet()
+				})
+				gate.open()
+				if !settled {
+					vInconclusive("C15 e2e: the server did not report a disconnect made with slow loggers within the liveness deadline")
+				}
+				note("slowClose", "%s#%d(%q) closed by the client while %s is slow", c.kind(), c.n, c.user, strings.Join(slowNames, "+"))
+				removeLive(c)
+				classes["slow-close"] = true
+				if nc != nil {
+					live = append(live, nc)
+					online[nc.user]++
+					note("connect", "#%d connects as %q while that offline notification is parked -> authenticated", nc.n, nc.user)
+					classes["connect-during-parked-offline"] = true
+					ntSlow = true
 				}
 			case "close":
 				c := live[rapid.IntRange(0, len(live)-1).Draw(rt, "which")]
